@@ -45,13 +45,13 @@ theorem isTopicAllowed_fn_eq (pattern : Str) (matched : Except Str Bool) :
   unfold Nsq.Gen.ToolsToFileFn.isTopicAllowed Nsq.Model.ToFileDisc.isTopicAllowed
   by_cases hp : pattern = [] <;> cases matched <;> simp [hp]
 
-/-! ### the consumer configuration `main()` starts with (finding `gives-up-after-max-attempts`, fix F25) -/
+/-! ### the consumer configuration `main()` starts with (finding `gives-up-after-max-attempts`, fix F43) -/
 
 /-- go-nsq's struct-tag default -/
 theorem toFileMaxAttempts_lib_eq : Nsq.Gen.ToolsToFileFn.toFileMaxAttempts_lib = 5 := rfl
 
-/-- `main()` either leaves the library default (tree without fix F25: the open finding) or sets `cfg.MaxAttempts = 0`
-(fix F25); any other value is a change this check does not understand -/
+/-- `main()` either leaves the library default (tree without fix F43: the open finding) or sets `cfg.MaxAttempts = 0`
+(fix F43); any other value is a change this check does not understand -/
 theorem toFileMaxAttempts_known :
     Nsq.Gen.ToolsToFileFn.toFileMaxAttempts = 5 ∨ Nsq.Gen.ToolsToFileFn.toFileMaxAttempts = 0 := by decide
 
